@@ -44,7 +44,7 @@ func c20Tokens(msg string) []string {
 	var out []string
 	cur := ""
 	for _, r := range msg {
-		if strings.ContainsRune("qzéjß€ũ", r) {
+		if strings.ContainsRune("qzéjß€ũQ", r) {
 			cur += string(r)
 		} else if cur != "" {
 			out = append(out, cur)
@@ -59,9 +59,9 @@ func c20Tokens(msg string) []string {
 
 func init() {
 	var namesQ, namesT, wordsQ, wordsT []string
-	namesQ = allStrings(c20Letters[:3], 1, 3)
+	namesQ = dedupStrings(append(allStrings(c20Letters[:3], 1, 3), "Q", "Qz", "zQ")) // three names with an upper-case letter
 	namesT = append(allStrings(c20Letters[:3], 1, 3), allStrings(c20Letters, 1, 2)...)
-	namesT = dedupStrings(namesT)
+	namesT = dedupStrings(append(namesT, "Q", "Qz", "zQ"))
 	// ũ (C5 A9) ends in the same byte as é (C3 A9); % is a formatting verb introducer
 	wordsQ = append([]string{""}, allStrings([]string{"q", "z", "é", "ß", "€", "ũ", "%"}, 1, 2)...)
 	wordsQ = append(wordsQ, allStrings([]string{"q", "z", "é", "ß"}, 3, 3)...)
@@ -233,7 +233,7 @@ func init() {
 		ShardDepth: 2,
 		Body:       body,
 		DevBound:   func(bool) int { return 1 },
-		Rule: "every set of 1..3 command names (all strings of length 1..3 over {q,z,é}; thorough adds all of length <= 2 over {q,z,é,j}), every hidden mask, " +
+		Rule: "every set of 1..3 command names (all strings of length 1..3 over {q,z,é} and Q, Qz, zQ; thorough adds all of length <= 2 over {q,z,é,j}), every hidden mask, " +
 			"x every word (all strings <= 2 over 7 characters and of length 3 over 4 of them quick / <= 2 over 8 characters and of length 3..4 over 4 of them thorough, drawn from the letters plus the foreign characters ß (2 bytes), € (3 bytes), ũ (2 bytes, same last byte as é) and %, the empty word, and no word at all) x {fresh parser, parser on which an earlier parse selected a command, hidden marks changed after a first diagnosis on the same parser} (or, instead, PassAfterNonOption set / PassDoubleDash set with the word after the terminator: the diagnosis is the same); " +
 			"oracle = textbook rune Levenshtein + the < 1/2 rule; distinct = distinct (error type, names mentioned, suggestion?) observations",
 		Assumptions:  []string{"names mentioned by a message are read back as maximal runs of the alphabet letters, which do not occur in the message templates", "ties between nearest names: any minimiser accepted", "threshold accepted with the name length in bytes or in characters"},
